@@ -111,6 +111,10 @@ func c19(ctx *core.Ctx) {
 		o := fullGenOpts(cf.Router)
 		o.StarMedia = false
 		t := rt.GenTable(r, o)
+		// one route that can negotiate between two registered representations
+		neg := &t.Svcs[0].Routes[0]
+		neg.Method, neg.Produces, neg.Consumes, neg.Conds, neg.NoCT = "GET", []string{restful.MIME_JSON, restful.MIME_XML}, nil, nil, nil
+		t.Fill()
 		ctx.Case(ci, core.JSON(cf)+" table="+core.JSON(t))
 		// the multiset
 		var reqs []rt.Req
@@ -135,6 +139,12 @@ func c19(ctx *core.Ctx) {
 				req.Hdr["Origin"] = "http://evil.com"
 			case 4:
 				req.Method = "OPTIONS"
+			case 5:
+				// negotiation with an Accept header the framework has to cope with (well-formed and malformed q-values)
+				req = rt.HitReq(r, &t.Svcs[0], neg)
+				req.HasAcc = true
+				req.Accept = r.Pick([]string{"application/json;q=high, application/xml;q=0.5", "application/xml;q=x,application/json;q=0.3", "application/xml;q=0.2, application/json;q=0.9",
+					"application/json;q=, application/xml", "*/*;q=abc, application/xml;q=0.1", "application/xml, application/json"})
 			}
 			if r.Chance(1, 3) {
 				req.Hdr["Accept-Encoding"] = r.Pick([]string{"gzip", "deflate", "gzip, deflate"})
